@@ -12,14 +12,11 @@ pub const REAL_CHUNKS: [&str; 3] = ["01285", "01836", "02019"];
 pub fn repo() -> PathBuf { PathBuf::from(std::env::var("PV_REPO").unwrap_or_else(|_| "/repo".into())) }
 pub fn test_data() -> PathBuf { repo().join("test_data") }
 
-/// every block of the three real chunk files, in chain order
-pub fn pool() -> &'static Pool {
-    static P: OnceLock<Pool> = OnceLock::new();
-    P.get_or_init(|| {
+fn load(chunks: &[&'static str], limit: usize) -> Pool {
         let mut blocks = vec![];
-        for name in REAL_CHUNKS {
+        for name in chunks.iter().copied() {
             let rd = pallas_hardano::storage::immutable::chunk::read_blocks(&test_data(), name).expect("test_data chunk");
-            for b in rd {
+            for b in rd.take(limit) {
                 let bytes = b.expect("intact test_data");
                 let blk = pallas_traverse::MultiEraBlock::decode(&bytes).expect("test_data block decodes");
                 let mut hash = [0u8; 32];
@@ -31,7 +28,18 @@ pub fn pool() -> &'static Pool {
         }
         let by_hash = blocks.iter().enumerate().map(|(i, b)| (b.hash, i)).collect();
         Pool { blocks, by_hash }
-    })
+}
+
+/// every block of the three real chunk files, in chain order
+pub fn pool() -> &'static Pool {
+    static P: OnceLock<Pool> = OnceLock::new();
+    P.get_or_init(|| load(&REAL_CHUNKS, usize::MAX))
+}
+
+/// the first blocks of the oldest real chunk file only (cheap to load in a per-case child process)
+pub fn small_pool() -> &'static Pool {
+    static P: OnceLock<Pool> = OnceLock::new();
+    P.get_or_init(|| load(&REAL_CHUNKS[..1], 24))
 }
 
 pub fn scratch_root() -> PathBuf {
@@ -79,8 +87,7 @@ pub fn primary_index(n: usize, gaps: &[usize]) -> Vec<u8> {
 }
 
 /// write `<name>.chunk/.primary/.secondary` for the given pool blocks
-pub fn write_chunk(dir: &Path, name: &str, blocks: &[usize], gaps: &[usize]) {
-    let pool = pool();
+pub fn write_chunk(pool: &Pool, dir: &Path, name: &str, blocks: &[usize], gaps: &[usize]) {
     let (mut chunk, mut sec) = (vec![], vec![]);
     for &i in blocks {
         let b = &pool.blocks[i];
